@@ -32,7 +32,7 @@ DESCRIBE = {
     "distinct_measure": "digest of (model kind, cohort shape, n_iter, sampler, decisions, proposal faults)",
     "real": ["RiemanianManifoldModel / JointModel._center_xi_realizations", "utils.linalg.compute_orthonormal_basis, mixing_matrix / space_shifts definitions", "TensorMcmcSaemAlgorithm run loop, samplers, State"],
     "stub": ["randn / rand / shuffle served", "clock virtual", "stdout captured"],
-    "assumptions": ["gauge invariance within rtol 3e-4 / atol 5e-5*max(1,|x|) (float32: exp(xi - m) * exp(log_v0 + m) is not bit-identical)", "orthogonality relative to the norms <= 2e-5",
+    "assumptions": ["gauge invariance within rtol 3e-4 / atol 5e-5*max(1,|x|) (float32: exp(xi - m) * exp(log_v0 + m) is not bit-identical)", "orthogonality relative to the norms <= 1e-4 (float32; 2.6e-5 was observed on the unchanged tree after a 5-sigma proposal)",
                     "mixture model excluded (quick)"],
 }
 KINDS = ["logistic_scalar", "logistic_diag", "logistic_diag_nosrc", "logistic_uni", "logistic_binary", "linear_diag", "linear_scalar", "linear_uni",
@@ -136,10 +136,10 @@ class C10Monitor(fitsim.Monitor):
             norms = np.linalg.norm(rows, axis=1) * np.linalg.norm(gd) + 1e-30
             rel = np.abs(inner) / norms
             big = np.linalg.norm(rows, axis=1) > 1e-12
-            if np.any(rel[big] > 2e-5):
+            if np.any(rel[big] > 1e-4):
                 # is it orthogonal in the Euclidean sense instead (missing metric)?
                 rel_e = np.abs(rows @ direction) / (np.linalg.norm(rows, axis=1) * np.linalg.norm(direction) + 1e-30)
-                cls = "euclidean_instead_of_metric" if np.all(rel_e[big] < 2e-5) else "not_orthogonal"
+                cls = "euclidean_instead_of_metric" if np.all(rel_e[big] < 1e-4) else "not_orthogonal"
                 violation(out, "orthogonality", f"{name}:{cls}:{fam}:{when}", f"k={k} {when}: max relative inner product {float(rel[big].max()):.3g}")
                 return
 
